@@ -25,14 +25,20 @@ pub mod vx_set {
     pub struct HashSet<T> { inner: std::collections::HashSet<T> }
     impl<T: std::hash::Hash + Eq> HashSet<T> {
         pub uninterp spec fn view(&self) -> Set<T>;
+        /// the order in which iteration yields the elements (some function of the set's state; nothing is assumed about it)
+        pub uninterp spec fn order(&self) -> Seq<T>;
         #[verifier::external_body]
         pub fn new() -> (r: Self) ensures r@ == Set::<T>::empty() { HashSet { inner: std::collections::HashSet::new() } }
         #[verifier::external_body]
         pub fn insert(&mut self, v: T) -> (r: bool) ensures final(self)@ == old(self)@.insert(v) { self.inner.insert(v) }
+        /// TRUSTED: iteration yields exactly the members, each once
+        pub axiom fn lemma_order(&self)
+            ensures forall|x: T| #[trigger] self.order().contains(x) == self@.contains(x),
+                forall|i: int, j: int| 0 <= i < j < self.order().len() ==> self.order()[i] != self.order()[j];
         /// consumed as `for id in set`: R12 turns that into IntoIterator::into_iter(set)
         #[verifier::external_body]
         pub fn vx_into_vec(self) -> (r: Vec<T>)
-            ensures forall|x: T| #[trigger] r@.contains(x) == self@.contains(x),
+            ensures r@ == self.order(), forall|x: T| #[trigger] r@.contains(x) == self@.contains(x),
                     forall|i: int, j: int| 0 <= i < j < r@.len() ==> r@[i] != r@[j]
         { self.inner.into_iter().collect() }
     }
@@ -40,7 +46,7 @@ pub mod vx_set {
         type Item = T;
         type IntoIter = std::vec::IntoIter<T>;
         fn into_iter(self) -> (r: std::vec::IntoIter<T>)
-            ensures r.obeys_prophetic_iter_laws(), r.decrease().is_some(),
+            ensures r.obeys_prophetic_iter_laws(), r.decrease().is_some(), r.remaining() == self.order(),
                 forall|x: T| #[trigger] r.remaining().contains(x) == self@.contains(x),
                 forall|j: int| 0 <= j < r.remaining().len() ==> self@.contains(#[trigger] r.remaining()[j]),
                 forall|i: int, j: int| 0 <= i < j < r.remaining().len() ==> r.remaining()[i] != r.remaining()[j],
